@@ -36,6 +36,7 @@ def verify_function(prog, spec, con, mode='seq', options=None):
             env[p['n']] = ('val', v)
     # pre-existing pointers have non-negative ids
     ex.cur_env = env
+    ex.init_globals(st)
     spec.begin(ex, st, con, env)
     nreq = 0
     ex.mode = mode
@@ -358,3 +359,18 @@ def probe_model(ex, spec, con, o):
     except Exception:
         pass
     return probes
+
+
+def verify_lemma(prog, spec, lem, options=None):
+    """A file-level `lemma` clause: a closed formula over the program's pure helper functions (executed symbolically),
+    proved in the state right after package initialisation."""
+    ex = Exec(prog, spec, mode='seq', options=options)
+    ex.cur_fn = 'lemma'
+    ex.cur_contract = None
+    st = State()
+    ex.init_globals(st)
+    g = spec.eval_bool(ex, lem.expr, {}, st, st)
+    ex.oblige(st, '%s/lemma/%s' % (ex.tagstr(lem), lem.label or 'l%d' % lem.line), g, tags=lem.tags,
+              where='%s:%d' % (lem.file, lem.line), kind='lemma')
+    ex.covers.append(('cover/lemma/%s/requires' % (lem.label or lem.line), list(st.pc)))
+    return ex
